@@ -426,6 +426,37 @@ fn c05_hdr_one_rtt_roundtrip() {
 }
 
 // ------------------------------------------------------------------------------------------------
+// the Header sum type
+
+fn dispatch_case(h: Header, first: u8, size: usize) {
+    let mut arr = [0u8; 32];
+    {
+        let mut buf: &mut [u8] = &mut arr[..size];
+        buf.put_header(&h);
+        assert!(buf.is_empty(), "the sum-type writer writes the kind's own bytes, all of them");
+    }
+    assert!(arr[0] == first, "Header::X is written by the writer of kind X");
+    core::mem::forget(h);
+}
+
+/// C05 `WriteHeader<Header>` (the sum-type writer) dispatches every variant to the writer of its
+/// own kind: concrete headers with empty cids / token / version list, first byte and total size.
+/// (The per-kind harnesses call the kind's writer directly.)
+#[kani::proof]
+#[kani::stub(core::slice::index::slice_index_fail, stub_slice_index_fail)]
+#[kani::unwind(6)]
+fn c05_hdr_enum_dispatch() {
+    let d = ConnectionId::default();
+    dispatch_case(Header::VN(LongHeaderBuilder::with_cid(d, d).vn(Vec::new())), 0x80, 7);
+    dispatch_case(Header::Retry(LongHeaderBuilder::with_cid(d, d).retry(Vec::new(), [0u8; 16])), 0xf0, 23);
+    dispatch_case(Header::Initial(LongHeaderBuilder::with_cid(d, d).initial(Vec::new())), 0xc0, 8);
+    dispatch_case(Header::ZeroRtt(LongHeaderBuilder::with_cid(d, d).zero_rtt()), 0xd0, 7);
+    dispatch_case(Header::Handshake(LongHeaderBuilder::with_cid(d, d).handshake()), 0xe0, 7);
+    dispatch_case(Header::OneRtt(OneRttHeader::new(SpinBit::One, d)), 0x60, 1);
+    kani::cover!(true, "all six variants written");
+}
+
+// ------------------------------------------------------------------------------------------------
 // packet type, packet number wire length
 
 /// C05 packet type: every Type (5 long kinds, 1-RTT with either spin) is written in
